@@ -20,9 +20,12 @@ func accCert(c *certificate.Certificate) map[string]any {
 	t, terr := c.Type()
 	l, lerr := c.Length()
 	d, derr := c.Data()
+	gs, gserr := certificate.GetSignatureTypeFromCertificate(*c)
+	gc, gcerr := certificate.GetCryptoTypeFromCertificate(*c)
 	return map[string]any{"nil": false, "type": t, "type_ok": terr == nil, "len": l, "len_ok": lerr == nil,
 		"data": ints(d), "data_ok": derr == nil, "raw": ints(c.RawBytes()), "excess": ints(c.ExcessBytes()),
-		"bytes": ints(c.Bytes()), "valid": c.IsValid()}
+		"bytes": ints(c.Bytes()), "valid": c.IsValid(),
+		"getsig": gs, "getsig_ok": gserr == nil, "getcrypto": gc, "getcrypto_ok": gcerr == nil}
 }
 
 func accKeyCert(k *key_certificate.KeyCertificate) map[string]any {
@@ -40,6 +43,31 @@ func accKeyCert(k *key_certificate.KeyCertificate) map[string]any {
 	m["cpksize"] = cps
 	m["cpksize_ok"] = cpsErr == nil
 	m["kcdata"] = ints(d)
+	// keys constructed from a full 256-byte encryption-key field / a 128-byte signing-key field / an exact-size signing key
+	field256, field128 := fillBytes(256, 40), fillBytes(128, 90)
+	m["field256"], m["field128"] = ints(field256), ints(field128)
+	if pk, err := k.ConstructPublicKey(field256); err == nil && pk != nil {
+		m["cpk_ok"], m["cpk"] = true, ints(pk.Bytes())
+	} else {
+		m["cpk_ok"], m["cpk"] = false, []int{}
+	}
+	_, shortErr := k.ConstructPublicKey(field256[:255])
+	m["cpk_short_rejected"] = shortErr != nil
+	if sk, err := k.ConstructSigningPublicKey(field128); err == nil && sk != nil {
+		m["cspk128_ok"], m["cspk128"] = true, ints(sk.Bytes())
+	} else {
+		m["cspk128_ok"], m["cspk128"] = false, []int{}
+	}
+	m["cspk_exact_ok"], m["cspk_exact"] = false, []int{}
+	if n := k.SigningPublicKeySize(); n > 0 && n <= 128 {
+		if sk, err := k.ConstructSigningPublicKey(field128[:n]); err == nil && sk != nil {
+			m["cspk_exact_ok"], m["cspk_exact"] = true, ints(sk.Bytes())
+		}
+		_, e := k.ConstructSigningPublicKey(field128[:n-1])
+		m["cspk_short_rejected"] = e != nil
+	} else {
+		m["cspk_short_rejected"] = true
+	}
 	return m
 }
 
